@@ -31,7 +31,7 @@ ASSUMPTIONS = [
     '3-point trajectories; one temp directory per case; inputs created with the real store',
 ]
 SCHEMES = ['none', 'asc', 'desc', 'interleaved', 'wide']
-REFUSALS = ['fieldsets', 'mixed-ident-unid', 'mixed-ident-id', 'missing-input', 'wrong-suffix',
+REFUSALS = ['fieldsets', 'fieldset-metadata', 'mixed-ident-unid', 'mixed-ident-id', 'missing-input', 'wrong-suffix',
             'existing-output', 'bad-output-suffix', 'both-list-and-pattern', 'pattern-without-range']
 
 
@@ -172,6 +172,29 @@ def remerge_case(tmp, case):
     return {'outcome': 'remerged', 'nontrivial': True, 'violations': vio}
 
 
+def tamper_units(path):
+    """Same group and variable names, different field metadata: the `units` attribute of one per-point
+    variable is edited in the file (what an external tool would do). The field set no longer matches."""
+    import netCDF4
+
+    ds = netCDF4.Dataset(path, 'a')
+    try:
+        done = False
+        stack = [ds]
+        while stack and not done:
+            g = stack.pop()
+            for name in sorted(g.variables):
+                v = g.variables[name]
+                if 'units' in v.ncattrs() and name in ('fuel_flow', 'altitude', 'true_airspeed'):
+                    v.setncattr('units', 'furlongs')
+                    done = True
+                    break
+            stack.extend(g.groups.values())
+        assert done, 'no variable to tamper with'
+    finally:
+        ds.close()
+
+
 def build_refusal(tmp, rule, pos, sizes):
     """Inputs and merge keyword arguments violating exactly one rule at position pos."""
     from AEIC.trajectories import TrajectoryStore
@@ -192,6 +215,8 @@ def build_refusal(tmp, rule, pos, sizes):
         with TrajectoryStore.create(base_file=paths[pos]) as ts:
             for j in range(sizes[pos]):
                 ts.add(sm.make_traj(500 + j, rule == 'mixed-ident-id'))
+    elif rule == 'fieldset-metadata':
+        tamper_units(paths[pos])
     elif rule == 'missing-input':
         paths[pos].unlink()
     elif rule == 'wrong-suffix':
